@@ -16,7 +16,7 @@ package dig
 //@ ghost field Scope.anc mmap[int]*Scope
 //@ ghost field Scope.nanc int
 //@ typeinv[scope-ancestors] (s *Scope) s.nanc >= 1 && s.anc[0] == s
-//@   && (forall i int :: 0 <= i && i < s.nanc ==> s.anc[i] != nil)
+//@   && (forall i int :: 0 <= i && i < s.nanc ==> s.anc[i] != nil && allocated(s.anc[i]))
 //@   && (forall i int :: 0 <= i && i + 1 < s.nanc ==> s.anc[i+1] == s.anc[i].parentScope)
 //@   && s.anc[s.nanc-1].parentScope == nil
 
@@ -709,3 +709,84 @@ package dig
 //@   loop range vs #1: invariant[C07:commit-members-loop-writes-only-the-target] wrValues(cw, false) && wrGroups(cw, false)
 //@   loop range vs #1: invariant[C01:values-stay-committed-inner] (forall k2 key :: k2 in sr.values ==> k2 in S.values && S.values[k2] == sr.values[k2])
 //@        && (forall k2 key :: !(k2 in sr.values) ==> (k2 in S.values <==> old(k2 in S.values)) && S.values[k2] == old(S.values[k2]))
+
+// ---------------------------------------------------------------------------
+// scope creation (C08, C16, C17, C05)
+
+// position of a graph node (a constructor or a value-group parameter) in the
+// graph copy of scope sc
+//@ pure func orderOf(w Any, sc *Scope) Int =
+//@   is(w, ptr(constructorNode)) ? as(w, ptr(constructorNode)).orders[sc]
+//@   : (is(w, ptr(paramGroupedSlice)) ? as(w, ptr(paramGroupedSlice)).orders[sc] : 0 - 1)
+
+// every entry of a scope's graph wraps a live node that has an order map
+//@ pure func graphNodesOK(s *Scope) Bool =
+//@   forall j int :: 0 <= j && j < len(s.gh.nodes) ==> s.gh.nodes[j] != nil
+//@     && (is(s.gh.nodes[j].Wrapped, ptr(constructorNode)) ==> as(s.gh.nodes[j].Wrapped, ptr(constructorNode)) != nil)
+//@     && (is(s.gh.nodes[j].Wrapped, ptr(paramGroupedSlice)) ==> as(s.gh.nodes[j].Wrapped, ptr(paramGroupedSlice)) != nil && as(s.gh.nodes[j].Wrapped, ptr(paramGroupedSlice)).orders != nil)
+
+//@ func (s *Scope) Scope(name, opts) (child)
+//@   requires s != nil && graphNodesOK(s)
+//@   requires forall i int :: 0 <= i && i < len(opts) ==> opts[i] != nil
+//@   modifies Scope.childScopes, elems(*Scope), map(constructorNode.orders)
+//@   allocates
+//@   ghostset child.nanc = s.nanc + 1
+//@   ghostset child.anc[i int] = i == 0 ? child : s.anc[i - 1]
+//@   ensures[C08:child-hangs-below-its-parent] child != nil && fresh(child) && child.parentScope == s
+//@   ensures[C08:parent-lists-the-child-last] len(s.childScopes) == old(len(s.childScopes)) + 1 && s.childScopes[len(s.childScopes) - 1] == child
+//@        && (forall i int :: 0 <= i && i < old(len(s.childScopes)) ==> s.childScopes[i] == old(s.childScopes[i]))
+//@   ensures[C08:child-starts-empty] len(child.nodes) == 0 && len(child.childScopes) == 0
+//@        && (forall k key :: !(k in child.providers) && !(k in child.decorators) && !(k in child.values) && !(k in child.decoratedValues) && !(k in child.groups) && !(k in child.decoratedGroups))
+//@   ensures[C17:child-inherits-the-invoker] child.invokerFn == s.invokerFn
+//@   ensures[C13:child-inherits-panic-recovery,C20:child-inherits-the-clock] child.recoverFromPanics == s.recoverFromPanics && child.clockSrc == s.clockSrc
+//@   ensures[C16:child-inherits-deferred-verification,C05:child-inherits-deferred-verification] child.deferAcyclicVerification == s.deferAcyclicVerification && !child.isVerifiedAcyclic
+//@   ensures[C16:child-graph-is-a-copy-of-the-parents,C05:child-graph-is-a-copy-of-the-parents] child.gh != nil && child.gh != s.gh && child.gh.s == child && len(child.gh.nodes) == len(s.gh.nodes)
+//@        && (forall j int :: 0 <= j && j < len(s.gh.nodes) ==> child.gh.nodes[j] == s.gh.nodes[j])
+//@   ensures[C16:child-sees-every-node-at-its-parents-position,C05:child-sees-every-node-at-its-parents-position,C08:child-sees-every-node-at-its-parents-position]
+//@        forall j int :: 0 <= j && j < len(s.gh.nodes) ==> orderOf(s.gh.nodes[j].Wrapped, child) == orderOf(s.gh.nodes[j].Wrapped, s)
+//@   ensures[C16:parents-graph-untouched] s.gh == old(s.gh) && s.gh.nodes == old(s.gh.nodes) && (forall j int :: 0 <= j && j < len(s.gh.nodes) ==> s.gh.nodes[j] == old(s.gh.nodes[j]))
+//@        && (forall j int :: 0 <= j && j < len(s.gh.nodes) ==> orderOf(s.gh.nodes[j].Wrapped, s) == old(orderOf(s.gh.nodes[j].Wrapped, s)))
+//@   ensures[C03:creating-a-scope-runs-nothing] $nrun == old($nrun) && $ncb == old($ncb) && $ev == old($ev)
+//@   ensures[C08:other-scopes-untouched] forall x *Scope :: existed(x) && x != s ==> x.childScopes == old(x.childScopes)
+//@   loop range s.gh.nodes #1: invariant[C16:graph-copied-so-far] child.gh != nil && fresh(child.gh) && len(child.gh.nodes) == $i && (cap(child.gh.nodes) == 0 || fresh(child.gh.nodes))
+//@        && (forall j int :: 0 <= j && j < $i ==> child.gh.nodes[j] == s.gh.nodes[j])
+//@   loop range s.gh.nodes #1: invariant[C16:orders-copied-so-far] forall j int :: 0 <= j && j < $i ==> orderOf(s.gh.nodes[j].Wrapped, child) == orderOf(s.gh.nodes[j].Wrapped, s)
+//@   loop range s.gh.nodes #1: invariant[C16:parents-orders-kept] forall j int :: 0 <= j && j < len(s.gh.nodes) ==> orderOf(s.gh.nodes[j].Wrapped, s) == old(orderOf(s.gh.nodes[j].Wrapped, s))
+//@   loop range s.gh.nodes #1: invariant fresh(child) && child != s && s.gh == old(s.gh) && s.gh.nodes == old(s.gh.nodes) && graphNodesOK(s)
+//@        && (forall j int :: 0 <= j && j < len(s.gh.nodes) ==> s.gh.nodes[j] == old(s.gh.nodes[j]))
+
+// ---------------------------------------------------------------------------
+// the two invokers (C17, C03): each proves, for itself, the clauses that the
+// contract of the function type dig.invokerFn states for it
+
+//@ func defaultInvoker(fn, args) (results)
+//@   requires valid(fn) && kind(typ(fn)) == kFunc()
+//@   requires isVariadic(typ(fn)) ? len(args) >= numIn(typ(fn)) - 1 : len(args) == numIn(typ(fn))
+//@   modifies elems(reflect.Value), $nrun, $runFn, $runArgs, $ev, $evKind
+//@   allocates
+//@   maypanic
+//@   ensures[C03:default-invoker-runs-the-function-once,C17:default-invoker-runs-the-function-once] $nrun == old($nrun) + 1 && $runFn[old($nrun)] == fn && $runArgs[old($nrun)] == args
+//@        && $ev == old($ev) + 1 && $evKind[old($ev)] == evRun()
+//@   ensures[C03:default-invoker-keeps-the-log] (forall i int :: i < old($nrun) ==> $runFn[i] == old($runFn)[i] && $runArgs[i] == old($runArgs)[i])
+//@        && (forall i int :: i < old($ev) ==> $evKind[i] == old($evKind)[i])
+//@   ensures[C17:default-results-have-the-declared-shape] len(results) == numOut(typ(fn)) && (fresh(results) || len(results) == 0)
+//@        && (forall i int :: 0 <= i && i < len(results) ==> valid(results[i]) && typ(results[i]) == outT(typ(fn), i))
+//@   onpanic[C03:default-invoker-logs-a-panicking-run] $nrun == old($nrun) + 1 && $runFn[old($nrun)] == fn && $runArgs[old($nrun)] == args
+//@        && $ev == old($ev) + 1 && $evKind[old($ev)] == evRun() && (forall i int :: i < old($ev) ==> $evKind[i] == old($evKind)[i])
+
+//@ func dryInvoker(fn, args) (results)
+//@   requires valid(fn) && kind(typ(fn)) == kFunc()
+//@   allocates
+//@   ensures[C17:dry-invoker-runs-nothing] $nrun == old($nrun) && $ev == old($ev) && $ncb == old($ncb) && $runFn == old($runFn) && $runArgs == old($runArgs) && $evKind == old($evKind)
+//@   ensures[C17:dry-results-have-the-declared-shape] len(results) == numOut(typ(fn)) && (fresh(results) || len(results) == 0)
+//@        && (forall i int :: 0 <= i && i < len(results) ==> valid(results[i]) && typ(results[i]) == outT(typ(fn), i))
+//@   ensures[C17:dry-results-are-zero-values] forall i int :: 0 <= i && i < len(results) ==> results[i] == zeroV(outT(typ(fn), i))
+//@   loop for i < ft.NumOut() #1: invariant[C17:dry-results-so-far] 0 <= i && len(results) == numOut(typ(fn)) && fresh(results)
+//@        && (forall j int :: 0 <= j && j < i ==> results[j] == zeroV(outT(typ(fn), j)))
+//@   loop for i < ft.NumOut() #1: modifies elems(reflect.Value)
+
+//@ func (o dryRunOption) applyOption(c) ()
+//@   requires c != nil && c.scope != nil
+//@   modifies Scope.invokerFn
+//@   ensures[C17:dry-run-option-selects-the-dry-invoker] c.scope.invokerFn == (o ? dryInvoker : defaultInvoker)
+//@   ensures[C17:dry-run-option-touches-one-scope] forall x *Scope :: x != c.scope ==> x.invokerFn == old(x.invokerFn)
